@@ -1598,7 +1598,7 @@ fn only_return(b: &Block) -> Option<Option<Expr>> {
 ///   `let P = E else { return; }; REST`           ->  `if let P = E { REST }`                (unit function)
 ///   `let P = E else { return X; }; REST`         ->  `if let P = E { REST } else { X }`
 ///   a trailing `return X;`                       ->  `X`
-fn nest_returns_in(stmts: &mut Vec<Stmt>, unit_fn: bool, sites: &mut BTreeMap<String, usize>) {
+fn nest_returns_in(stmts: &mut Vec<Stmt>, unit_fn: bool, ret_option: bool, sites: &mut BTreeMap<String, usize>) {
     // trailing `return X;` / `return;`
     if let Some(Stmt::Expr(Expr::Return(r), _)) = stmts.last() {
         let rep: Option<Expr> = r.expr.as_ref().map(|e| (**e).clone());
@@ -1615,7 +1615,7 @@ fn nest_returns_in(stmts: &mut Vec<Stmt>, unit_fn: bool, sites: &mut BTreeMap<St
             Stmt::Expr(Expr::If(iff), _) if iff.else_branch.is_none() => {
                 if let Some(ret) = only_return(&iff.then_branch) {
                     let mut rest: Vec<Stmt> = stmts[i + 1..].to_vec();
-                    nest_returns_in(&mut rest, unit_fn, sites);
+                    nest_returns_in(&mut rest, unit_fn, ret_option, sites);
                     let c = &iff.cond;
                     match ret {
                         None if unit_fn => {
@@ -1630,13 +1630,28 @@ fn nest_returns_in(stmts: &mut Vec<Stmt>, unit_fn: bool, sites: &mut BTreeMap<St
                     }
                 }
             }
+            Stmt::Local(l) if ret_option && !matches!(l.pat, Pat::Type(_)) && l.init.as_ref().map(|i| i.diverge.is_none() && matches!(&*i.expr, Expr::Try(_))).unwrap_or(false) => {
+                // `let P = E?; REST`  ->  `if let Some(P) = E { REST } else { None }`   (function returning Option)
+                if let Some(init) = &l.init {
+                    if let Expr::Try(t) = &*init.expr {
+                        let mut rest: Vec<Stmt> = stmts[i + 1..].to_vec();
+                        nest_returns_in(&mut rest, unit_fn, ret_option, sites);
+                        if !rest.is_empty() {
+                            let pat = &l.pat;
+                            let inner = &t.expr;
+                            let e: Expr = parse_quote!(if let Some(#pat) = #inner { #(#rest)* } else { None });
+                            replacement = Some(Stmt::Expr(e, None));
+                        }
+                    }
+                }
+            }
             Stmt::Local(l) if !matches!(l.pat, Pat::Type(_)) => {
                 if let Some(init) = &l.init {
                     if let Some((_, els)) = &init.diverge {
                         if let Expr::Block(eb) = &**els {
                             if let Some(ret) = only_return(&eb.block) {
                                 let mut rest: Vec<Stmt> = stmts[i + 1..].to_vec();
-                                nest_returns_in(&mut rest, unit_fn, sites);
+                                nest_returns_in(&mut rest, unit_fn, ret_option, sites);
                                 let pat = &l.pat;
                                 let ex = &init.expr;
                                 match ret {
@@ -2074,7 +2089,8 @@ fn main() {
             // T19 (only on request, for a function about to be inlined into its callers): guard-style early returns become
             // the equivalent nesting, so that the body is a plain block
             let unit_fn = matches!(f.sig.output, ReturnType::Default);
-            nest_returns_in(&mut block.stmts, unit_fn, &mut rw.sites);
+            let ret_option = match &f.sig.output { ReturnType::Type(_, t) => clean(&ts(t)).starts_with("Option<"), _ => false };
+            nest_returns_in(&mut block.stmts, unit_fn, ret_option, &mut rw.sites);
         }
         let empty_assoc = BTreeMap::new();
         let assoc_here = match (&f.trait_name, &f.impl_type) {
